@@ -78,6 +78,14 @@ func (sm *seatManager) AssignSeats(playerSeatIDs map[string]int) error {
 	seats := make(map[int]bool)
 
 	for playerID, seatID := range playerSeatIDs {
+		// check seat range
+		if seatID < 0 || seatID >= sm.MaxSeat {
+			sm.printState(5, func(tag int) {
+				fmt.Printf("[DEBUG#seatManager#AssignSeats#%d] seatID: %d, MaxSeat: %d. Error: %+v\n", tag, seatID, sm.MaxSeat, ErrUnavailableSeat)
+			})
+			return ErrUnavailableSeat
+		}
+
 		// check players
 		if _, exist := playerIDs[playerID]; exist {
 			return ErrDuplicatePlayers
